@@ -408,8 +408,8 @@ class C12(Prop):
             "fixed-length patterns (literals incl. self-overlapping, '.', classes, negated classes, newline "
             "spans), 35% FailingResponder; driven through the watcher objects, Runner.run and Context.sudo. "
             "non-trivial = some watcher pattern occurs in its stream's text and that stream has >= 2 reads; "
-            "thorough adds every composition of every text of length <= 6 x 10 patterns (single Responder) "
-            "and <= 4 x failing pairs")
+            "thorough adds every composition of every text of length <= 6 (and of every 27th text of length 7) "
+            "x the patterns of the pool occurring in it (single Responder), and length <= 4 x 4 failing pairs")
     trusted_base = [
         "Coq 8.16.1 kernel + vm_compute (shard evaluation, refutation witnesses)",
         "hand-written models coq/Model/RegexFam.v (re.findall on the fixed-length family; checked against the "
@@ -481,6 +481,17 @@ class C12(Prop):
                             continue
                         yield {"how": "direct", "watchers": [{"kind": "resp", "pattern": p, "response": "y"}],
                                "sudo": None, "sched": [[0, c] for c in comp]}
+        if tier == "thorough":
+            # length 7: every 27th text, all 64 compositions
+            for k, tup in enumerate(itertools.product(ALPHA, repeat=7)):
+                if k % 27:
+                    continue
+                s = "".join(tup)
+                for comp in compositions(s):
+                    for p in POOL:
+                        if re.search(regex(p), s, re.S):
+                            yield {"how": "direct", "watchers": [{"kind": "resp", "pattern": p, "response": "y"}],
+                                   "sudo": None, "sched": [[0, c] for c in comp]}
         fmax = 4 if tier == "thorough" else 3
         pairs = [(L("a"), L("b")), (L("ab"), L("b")), (L("a"), L("ba")), ([["any"]], L("\n"))]
         for n in range(2, fmax + 1):
